@@ -127,6 +127,10 @@ pub struct PropDef {
     pub spaces: Vec<Space>,
     /// second leg with the shipping build (C01)
     pub differential: bool,
+    /// starvation floors: (counter name, minimum per executed case). A counter below its floor
+    /// means the probes the check relies on are no longer being made (e.g. a precondition that
+    /// depends on the code under test stopped holding): exit 2, never a pass.
+    pub floors: &'static [(&'static str, f64)],
 }
 
 pub fn hash64<T: Hash + ?Sized>(t: &T) -> u64 {
